@@ -67,6 +67,10 @@ Fixpoint escape_runes (nul : bool) (len : nat) (rs : list (nat * bool * N * nat)
   end.
 Definition escape_gen (nul : bool) (s : bytes) : bytes := escape_runes nul (length s) (runes s).
 
+(* utf8.ValidString: every rune of the range loop is a valid encoding *)
+Definition valid_utf8 (s : bytes) : bool :=
+  forallb (fun x => match x with (_, v, _, _) => v end) (runes s).
+
 (* ---------- attribute values as Go values (pkix.AttributeTypeAndValue.Value is `any`) ---------- *)
 Inductive govalue : Type :=
 | GStr (s : bytes)                       (* string *)
